@@ -54,3 +54,30 @@ def pmap(fn, items, workers=None):
     """Thread pool map (subprocess-bound work)."""
     with ThreadPoolExecutor(max_workers=workers or NCPU) as ex:
         return list(ex.map(fn, items))
+
+
+def sfs_dribble(args, data, first=1, pause=0.004, kind="release", env=None, timeout=60):
+    """Feed stdin through a real pipe in two writes (first `first` bytes, a pause, then the rest)."""
+    import time as _t
+    exe = build.cli(kind)
+    e = dict(BASE_ENV)
+    if env:
+        e.update(env)
+    argv = [exe] + [str(a) for a in args]
+    p = subprocess.Popen(argv, stdin=subprocess.PIPE, stdout=subprocess.PIPE, stderr=subprocess.PIPE, env=e)
+    try:
+        try:
+            p.stdin.write(data[:first])
+            p.stdin.flush()
+            _t.sleep(pause)
+            p.stdin.write(data[first:])
+            p.stdin.close()
+        except (BrokenPipeError, OSError):
+            pass
+        p.stdin = None          # already closed; keep communicate() from flushing it again
+        out, err = p.communicate(timeout=timeout)
+        return Run(argv[1:], p.returncode, out, err)
+    except subprocess.TimeoutExpired:
+        p.kill()
+        out, err = p.communicate()
+        return Run(argv[1:], None, out, err, timed_out=True)
